@@ -16,6 +16,12 @@ CHECKS = {
    note="Trusted: snapshot/diff code; list order ignored as the property allows; floats compared to 1e-12 relative. Fault points: between operations and failing operations, not asynchronous interruption inside an operation.",
    technique="runtime invariant at context enter/exit hooks with fault workloads",
    ref="DESIGN.md §4 C03"),
+ "C04": dict(
+   level="exploration",
+   text="Runtime contracts (icontract ensure) on the real Model.optimize / Model.slim_optimize: on every call the FBA problem is rebuilt from Python-side data and solved by an exact rational simplex whose result is re-certified (primal/dual feasibility, Farkas vector, improving ray); status, value, primal feasibility, the dual certificate computed from the reported shadow prices, the reduced-cost identity, per-object accessors and snapshot semantics of Solution are judged. Bundled models are judged by the float duality certificate (no reference solver).",
+   note="Trusted: ~60-line certificate checker in exactlp.certify, not the simplex. Tolerances 1e-6 relative on values, 10x model tolerance on feasibility; generated data are dyadic rationals so every verdict is far from thresholds.",
+   technique="runtime contracts (icontract) + exact certified LP oracle",
+   ref="DESIGN.md §4 C04"),
  "C07": dict(
    level="exploration",
    text="Independent oracle (truth table from the generator's own and/or tree) judged after every single knock-out: bounds of every reaction, gene.functional, reaction.functional and the solver's variable bounds; per generated model all gene subsets, all orders for subsets <= 4, four API forms, inside and outside a context (restore checked on exit).",
